@@ -27,12 +27,25 @@ static char *ser(json_object *o)
 	{
 	case json_type_object:
 	{
-		n += (size_t)snprintf(buf + n, sizeof buf - n, "{");
+		/* (members are rendered first: the recursion reuses the static buffer) */
+		char *parts[256];
+		const char *names[256];
+		int np = 0;
 		json_object_object_foreach(o, k, v)
 		{
-			char *s = ser(v);
-			n += (size_t)snprintf(buf + n, sizeof buf - n, "%s=%s;", k, s);
-			free(s);
+			if (np < 256)
+			{
+				names[np] = k;
+				parts[np] = ser(v);
+				np++;
+			}
+		}
+		/* (the reported length is part of what the caller sees of an object) */
+		n += (size_t)snprintf(buf + n, sizeof buf - n, "{#%d:", json_object_object_length(o));
+		for (int i = 0; i < np; i++)
+		{
+			n += (size_t)snprintf(buf + n, sizeof buf - n, "%s=%s;", names[i], parts[i]);
+			free(parts[i]);
 		}
 		snprintf(buf + n, sizeof buf - n, "}");
 		break;
@@ -43,7 +56,7 @@ static char *ser(json_object *o)
 		size_t len = json_object_array_length(o);
 		for (size_t i = 0; i < len && i < 256; i++)
 			parts[i] = ser(json_object_array_get_idx(o, i));
-		n += (size_t)snprintf(buf + n, sizeof buf - n, "[");
+		n += (size_t)snprintf(buf + n, sizeof buf - n, "[#%zu:", len);
 		for (size_t i = 0; i < len && i < 256; i++)
 		{
 			n += (size_t)snprintf(buf + n, sizeof buf - n, "%s,", parts[i]);
@@ -98,8 +111,9 @@ static void apply_history(void)
 static void build_pre(void)
 {
 	pre_obj = json_object_new_object();
-	for (int i = 0; i < 10; i++)
+	for (int i = 0; i < 11; i++)
 	{
+		/* 11 members in a 16-slot table: the next NEW name makes the table grow (load factor 0.66) */
 		char k[8];
 		snprintf(k, sizeof k, "k%d", i);
 		json_object_object_add(pre_obj, k, json_object_new_int(i));
@@ -234,7 +248,7 @@ static wres w_construct(int v)
 }
 static wres w_obj_add(int v)
 {
-	/* pre_obj has 10 members: the 11th insert grows the table */
+	/* pre_obj has 11 members: a 12th name grows the table */
 	wres r = {2, NULL, 1};
 	json_object *val = json_object_new_int(99);
 	if (!val)
@@ -243,7 +257,7 @@ static wres w_obj_add(int v)
 		r.changed_mask = 0;
 		return r;
 	}
-	int rc = v == 0 ? json_object_object_add(pre_obj, "k10", val) : v == 1 ? json_object_object_add(pre_obj, "k3", val)
+	int rc = v == 0 ? json_object_object_add(pre_obj, "k11", val) : v == 1 ? json_object_object_add(pre_obj, "k3", val)
 	                                                                       : json_object_object_add_ex(pre_obj, "const", val, JSON_C_OBJECT_ADD_CONSTANT_KEY | JSON_C_OBJECT_ADD_KEY_IS_NEW);
 	if (rc == 0)
 	{
